@@ -13,6 +13,7 @@ import VerdeModel.Model.LinAlg
 import VerdeModel.Model.Kernels
 import VerdeModel.Model.Neighbors
 import VerdeModel.Model.Chain
+import VerdeModel.Model.Surfer
 namespace Verde
 open Val
 
@@ -390,8 +391,34 @@ def opsChain (op : String) (a : List Val) : Option Val :=
       pure (toVal (pred, filt))
   | _ => none
 
+def tokOf (v : Val) : Option Tok :=
+  match v with
+  | .atom "bad" => some .bad
+  | .list [.atom "f", x] => (fromVal x : Option Rat).map .num      -- a float literal (also when integer valued, e.g. `5.0`)
+  | .atom s => match s.toInt? with
+    | some n => some (.int n)
+    | none => (parseRat? s).map .num
+  | _ => none
+
+def toksAt (a : List Val) (i : Nat) : Option (List Tok) :=
+  match a[i]? with
+  | some (.list xs) => xs.mapM tokOf
+  | _ => none
+
+instance : ToVal IOEv := ⟨fun e => .atom (match e with | .open => "open" | .read => "read" | .close => "close")⟩
+
+def opsSurfer (op : String) (a : List Val) : Option Val :=
+  match op with
+  | "surfer" => do
+      let f : SurferFile := ⟨← argAt String a 0, ← toksAt a 1, ← toksAt a 2, ← toksAt a 3, ← toksAt a 4,
+        ← argAt (List (List Rat)) a 5, ← argAt Bool a 6, ← argAt Rat a 7⟩
+      let (r, tr) := loadSurfer f
+      pure (toVal (r.map fun g => (g.shape, g.northing, g.easting, g.values, g.gridId), tr))
+  | _ => none
+
 def dispatchers : List (String → List Val → Option Val) :=
-  [opsCoords, opsBlocks, opsWindows, opsGrid, opsCV, opsScore, opsGridder, opsLinAlg, opsKernels, opsNeighbors, opsChain]
+  [opsCoords, opsBlocks, opsWindows, opsGrid, opsCV, opsScore, opsGridder, opsLinAlg, opsKernels, opsNeighbors, opsChain,
+   opsSurfer]
 
 def runLine (line : String) : String :=
   match Val.parseLine line with
